@@ -591,12 +591,18 @@ fn run_idx(c: &Case, max: Option<usize>, coords: &[SemanticBlobCoordinate], ops:
                 let r = ix.retain(&mut st, coords[ci].clone(), b);
                 match (&r, first.get(&canon[ci])) {
                     (Ok(d), None) => {
-                        if *d.content_hash.as_bytes() != b3(b) || d.byte_len != b.len() as u64 || d.coordinate != coords[ci] {
+                        if d.coordinate != coords[ci] {
+                            fails.push("descriptor-names-other-coordinate".into());
+                        }
+                        if *d.content_hash.as_bytes() != b3(b) || d.byte_len != b.len() as u64 {
                             fails.push("retain-descriptor-wrong".into());
                         }
                         first.insert(canon[ci], b.clone());
                     }
                     (Ok(d), Some(e)) => {
+                        if d.coordinate != coords[ci] {
+                            fails.push("descriptor-names-other-coordinate".into());
+                        }
                         if e != b {
                             fails.push("retain-accepted-conflicting-bytes".into());
                         }
@@ -611,6 +617,9 @@ fn run_idx(c: &Case, max: Option<usize>, coords: &[SemanticBlobCoordinate], ops:
                         if *existing_content_hash.as_bytes() != b3(e) || *new_content_hash.as_bytes() != b3(b) {
                             fails.push("retain-conflict-wrong-fields".into());
                         }
+                    }
+                    (Err(RetentionError::SemanticCoordinateConflict { .. }), None) => {
+                        fails.push("retain-conflict-on-free-coordinate".into())
                     }
                     (Err(_), _) => fails.push("retain-unexpected-error".into()),
                 }
@@ -710,7 +719,7 @@ fn run_idx(c: &Case, max: Option<usize>, coords: &[SemanticBlobCoordinate], ops:
                 match ix.descriptor(&coords[ci]) {
                     Some(d) => {
                         if d.coordinate != coords[ci] {
-                            fails.push("descriptor-for-other-coordinate".into());
+                            fails.push("descriptor-names-other-coordinate".into());
                         }
                         format!("d{}/{}", hx(d.content_hash.as_bytes()), d.byte_len)
                     }
